@@ -500,7 +500,7 @@ fn judge<T: Payload>(c: &SchedCase, log: &[(usize, Ev)], final_count: u32, v: &R
                             let reported = (*n as i32 + *lie as i32).max(0) as u32;
                             ranges.push((*arg as u32, reported, (*n as u32).min(reported), *t, op));
                             for i in 0..reported {
-                                reserved_at.insert(*arg as u32 + i, seq);
+                                reserved_at.insert((*arg as u32).wrapping_add(i), seq);
                             }
                         }
                     }
@@ -550,7 +550,7 @@ fn judge<T: Payload>(c: &SchedCase, log: &[(usize, Ev)], final_count: u32, v: &R
             continue;
         }
         for k in 0..r.2 {
-            expect.insert(r.0 + k, value_of(r.3, r.4, k as usize));
+            expect.insert(r.0.wrapping_add(k), value_of(r.3, r.4, k as usize));
         }
     }
     // ---- responses ---------------------------------------------------------------------------------------
@@ -586,7 +586,7 @@ fn judge<T: Payload>(c: &SchedCase, log: &[(usize, Ev)], final_count: u32, v: &R
                 },
                 None => {
                     // must be Some if the owning op had returned before this lookup was invoked
-                    if let Some(r) = ranges.iter().find(|r| *i >= r.0 && *i < r.0 + r.2) {
+                    if let Some(r) = ranges.iter().find(|r| *i >= r.0 && (*i as u64) < r.0 as u64 + r.2 as u64) {
                         if response_seq.get(&(r.3, r.4)).map_or(false, |&rs| rs < inv) && !matches!(log[response_seq[&(r.3, r.4)]].1, Ev::Response(_, Res::Panicked(_))) {
                             out.fail("completed-push-not-visible", format!("get({i}) returned None although the push/extend that owns the index had already returned; {ctx}"));
                         }
@@ -607,7 +607,7 @@ fn judge<T: Payload>(c: &SchedCase, log: &[(usize, Ev)], final_count: u32, v: &R
             }
             Res::Snap(start, items) => {
                 for (k, (i, val)) in items.iter().enumerate() {
-                    if *i != start + k as u32 {
+                    if *i as u64 != *start as u64 + k as u64 {
                         out.fail("snapshot-order", format!("snapshot from {start} yielded index {i} at position {k}; {ctx}"));
                         break;
                     }
@@ -615,13 +615,13 @@ fn judge<T: Payload>(c: &SchedCase, log: &[(usize, Ev)], final_count: u32, v: &R
                         if expect.get(i) != Some(val) {
                             out.fail("snapshot-wrong-content", format!("snapshot yielded {val:x} at index {i}, expected {:?}; {ctx}", expect.get(i)));
                         }
-                    } else if let Some(r) = ranges.iter().find(|r| *i >= r.0 && *i < r.0 + r.2) {
+                    } else if let Some(r) = ranges.iter().find(|r| *i >= r.0 && (*i as u64) < r.0 as u64 + r.2 as u64) {
                         if response_seq.get(&(r.3, r.4)).map_or(false, |&rs| rs < inv) && !matches!(log[response_seq[&(r.3, r.4)]].1, Ev::Response(_, Res::Panicked(_))) {
                             out.fail("snapshot-misses-completed-push", format!("snapshot yielded None for index {i} whose push had returned; {ctx}"));
                         }
                     }
                 }
-                if start + items.len() as u32 > final_count {
+                if *start as u64 + items.len() as u64 > final_count as u64 {
                     out.fail("snapshot-beyond-count", format!("snapshot from {start} yielded {} entries, final count {final_count}; {ctx}", items.len()));
                 }
             }
@@ -631,7 +631,7 @@ fn judge<T: Payload>(c: &SchedCase, log: &[(usize, Ev)], final_count: u32, v: &R
     }
     // final state: every yielded item is there, forever at the same index
     for (i, e) in &expect {
-        let owner = ranges.iter().find(|r| *i >= r.0 && *i < r.0 + r.2).unwrap();
+        let owner = ranges.iter().find(|r| *i >= r.0 && (*i as u64) < r.0 as u64 + r.2 as u64).unwrap();
         let panicked = response_seq.get(&(owner.3, owner.4)).map_or(true, |&rs| matches!(log[rs].1, Ev::Response(_, Res::Panicked(_))));
         match v.get(*i) {
             Some(it) if it.data.val() == *e => {}
@@ -644,7 +644,7 @@ fn judge<T: Payload>(c: &SchedCase, log: &[(usize, Ev)], final_count: u32, v: &R
     let many_switches = switches_inside.values().any(|&n| n >= 2);
     let racing_alloc = cas.iter().any(|(t, l)| cas.iter().any(|(t2, l2)| t2 != t && l2 == l));
     let get_in_flight = get_loads.iter().any(|(seq, i)| reserved_at.get(i).map_or(false, |r| r < seq) && published_at.get(i).map_or(true, |p| p > seq));
-    let crossing = ranges.iter().any(|r| r.1 > 1 && [32u32, 96, 224, 480].iter().any(|b| r.0 < *b && r.0 + r.1 > *b));
+    let crossing = ranges.iter().any(|r| r.1 > 1 && [32u32, 96, 224, 480].iter().any(|b| r.0 < *b && r.0 as u64 + r.1 as u64 > *b as u64));
     if many_switches {
         out.label("context-switches-inside-push/extend");
     }
